@@ -26,7 +26,8 @@ import numpy as np
 from gridrv import core, instrument
 
 TOL_UNIT = 1e-12  # slack of the [0,1] interval and of the nucleus values
-TOL_SHARE = 1e-10  # Hirshfeld value vs reference share (scaled by the conditioning of the share)
+TOL_SHARE_UNITS = 64.0  # Hirshfeld value vs reference share, in units of eps x conditioning of the share (observed <= 0.5)
+TOL_SHARE_ABS = 1e-11  # the same, absolute, where all atoms are closer than 8 bohr
 HIRSH_FAR = 16.0  # bohr: no shipped pro-atom spline is negative closer than 16.9 bohr to its nucleus
 
 STATE = {"gw_run": 0, "last_call_chunks": None, "order": None}
@@ -220,7 +221,9 @@ def ref_proatom_density(num, r, with_scale=False):
     c0 = (mom[i + 1] - mom[i]) / (6 * h)
     c2 = (y[i + 1] - y[i]) / h - h * (2 * mom[i] + mom[i + 1]) / 6
     local = np.abs(y[i]) + np.abs(c2 * b) + np.abs(c1 * b**2) + np.abs(c0 * b**3)
-    return val, scale + np.asarray(local, float)
+    # a relative error of a few eps in the distance itself moves the value by r |S'(r)| eps
+    slope = c2 + 2 * c1 * b + 3 * c0 * b**2
+    return val, scale + np.asarray(local, float) + 4.0 * np.asarray(np.abs(slope) * r, float)
 
 
 def ref_hirshfeld(points, atcoords, atnums):
@@ -280,9 +283,9 @@ def _hirshfeld_post(ctx, res, points, atcoords, atnums, indices):
     covered = own >= 0
     if not covered.any():
         return
-    rho = ref_hirshfeld(points, atcoords, atnums)  # (M, N)
+    rho, scale = ref_hirshfeld(points, atcoords, atnums)  # (M, N)
     tot = rho.sum(axis=0)
-    abs_tot = np.abs(rho).sum(axis=0)
+    cond_scale = scale.sum(axis=0)
     dist = np.linalg.norm(points[None, :, :] - atcoords[:, None, :], axis=-1)  # (M, N)
     far = dist.max(axis=0) > HIRSH_FAR
     idx = np.nonzero(covered)[0]
@@ -309,18 +312,30 @@ def _hirshfeld_post(ctx, res, points, atcoords, atnums, indices):
             subject,
             viol,
             TOL_UNIT,
-            sig=f"outside[0,1]:{reg}",
+            sig=f"outside-unit-interval:{reg}",
             detail={"point": p, "value": float(ww[k]), "atnums": list(map(int, atnums)), "dist_to_atoms": np.linalg.norm(atcoords - p, axis=1)[:8], "asked_atom": int(own[idx[sel][k]])},
         )
-    # equality with the reference share, scaled by the conditioning sum|rho| / |sum rho| (1 when all rho > 0)
+    # equality with the reference share, in units of the float64 conditioning of the share:
+    # |w - w_ref| <= K eps (sum_B scale_B / |sum_B rho_B|) (1 + |w_ref|)   with scale_B from the cardinal splines
     with np.errstate(all="ignore"):
-        share = rho[own[idx], idx] / tot[idx]
-        cond = abs_tot[idx] / np.abs(tot[idx])
-    good = np.isfinite(np.asarray(share, float)) & np.isfinite(np.asarray(cond, float)) & fin
+        share = np.asarray(rho[own[idx], idx] / tot[idx], float)
+        unit = np.finfo(float).eps * cond_scale[idx] / np.abs(np.asarray(tot[idx], float)) * (1.0 + np.abs(share))
+    good = np.isfinite(share) & np.isfinite(unit) & (unit > 0) & fin
     if good.any():
-        dev = np.abs(w[good] - np.asarray(share[good], float)) / np.asarray(cond[good], float)
+        dev = np.abs(w[good] - share[good]) / unit[good]
         k = int(np.argmax(dev))
-        ctx.check("hirshfeld-equals-proatom-share", subject, float(dev[k]), TOL_SHARE, sig=f"differs:{region[good][k]}", detail={"point": points[idx[good][k]], "value": float(w[good][k]), "reference": float(share[good][k]), "cond": float(cond[good][k]), "atnums": list(map(int, atnums))})
+        ctx.check(
+            "hirshfeld-equals-proatom-share",
+            subject,
+            float(dev[k]),
+            TOL_SHARE_UNITS,
+            sig=f"differs:{region[good][k]}",
+            detail={"point": points[idx[good][k]], "value": float(w[good][k]), "reference": float(share[good][k]), "abs_diff": float(abs(w[good][k] - share[good][k])), "unit": float(unit[good][k]), "atnums": list(map(int, atnums))},
+        )
+        # plain absolute comparison where every pro-atom value is well conditioned (all atoms closer than 8 bohr)
+        close = dist.max(axis=0)[idx][good] < 8.0
+        if close.any():
+            ctx.check("hirshfeld-equals-proatom-share-abs", subject, float(np.max(np.abs(w[good][close] - share[good][close]))), TOL_SHARE_ABS, sig="differs:near")
 
 
 # ------------------------------------------------------------------ install
